@@ -236,9 +236,11 @@ def PROOFS():
     spans_intercept per term, the identity layer (ExpandedFactor / Subterm equality and hashing: what 'already used' means) and the
     absorption step (can_absorb / absorb) are under contract; its loops (pick_contrast, _simplify_subterm, _sorted_subsets) are not:
     bounded tier only."""
-    from ..contracts import categorical_c, variable_c, utils_c, matrices_c, call_resolver_c, transforms_c, contrasts_c  # noqa: F401
+    from ..contracts import categorical_c, variable_c, utils_c, matrices_c, call_resolver_c, transforms_c, contrasts_c, lemmas_c  # noqa: F401
     return [("vf.contracts.categorical_c", categorical_c.FUNCTIONS),
             ("vf.contracts.contrasts_c", contrasts_c.FUNCTIONS),
+            # the pair step of the simplification: can_absorb's guarantee is absorb's precondition; nothing of the shorter subterm is lost
+            ("vf.contracts.lemmas_c", ["vf.proplemmas.c03.merge_step"]),
             # columns of an interaction are the pairwise products; the matrix is the terms' blocks side by side, one term per name
             ("vf.contracts.utils_c", utils_c.FUNCTIONS),
             ("vf.contracts.matrices_c", ["formulae.matrices.CommonEffectsMatrix.__init__", "formulae.matrices.CommonEffectsMatrix.evaluate"]),
